@@ -311,6 +311,8 @@ class World(object):
         self.resolved = []
         self.dns_records = 1            # address records per family
         self.select_calls = 0
+        self.thread_starts = 0
+        self.fail_thread_start = set()  # which thread starts are refused
         self.select_fail = None         # (n, exception): fails from call n on
         self.select_fail_hits = 0
         self.select_spin = False        # the client kept calling regardless
@@ -615,6 +617,16 @@ def installed(world):
                 RealNT.run(self)
             except (KillThread, BlockedForever):
                 pass
+
+        def start(self):
+            # injected fault: the OS refuses to start the n-th thread
+            # (thread / memory / pid limit): RuntimeError, as threading does
+            world.thread_starts += 1
+            if world.thread_starts in world.fail_thread_start:
+                if self in world.threads:
+                    world.threads.remove(self)
+                raise RuntimeError("can't start new thread")
+            RealNT.start(self)
     NT.__name__ = 'NetworkingThread'
     saved = (C.socket, C.select, C.NetworkingThread, threading.excepthook)
 
